@@ -493,7 +493,8 @@ def _menus():
                                 sensor_range=sens, request_queue_size=q),
                 time_limit=t if time_limit is None else time_limit),
             shelf_rows=sr, shelf_cols=sc, col_height=ch, agents=a, sensor=sens, queue=q, time_limit=t)
-    for r, c, t in ((6, 4, 7), (3, 3, 4000), (4, 6, 3), (12, 12, 4000), (3, 3, 2), (5, 5, 1), (6, 6, 30)):
+    for r, c, t in ((6, 4, 7), (3, 3, 4000), (4, 6, 3), (12, 12, 4000), (3, 3, 2), (5, 5, 1), (6, 6, 30),
+                    (2, 2, 4000), (2, 3, 40), (4, 4, 4000)):      # tiny boards: games are won (board filled) all the time
         add("Snake", f"r{r}c{c}t{t}",
             lambda r=r, c=c, t=t, time_limit=None, **k: E.Snake(
                 num_rows=r, num_cols=c, time_limit=t if time_limit is None else time_limit),
@@ -573,7 +574,7 @@ QUICK = {
     "CVRP": ["n5s", "n20d", "zb6d", "n130d"], "LevelBasedForaging": ["g6a2f2v2l2cVNp0t100", "g8a3f3v3l3nGRp5t100", "g7a2f3v7l2nGRp0t40", "g5a3f1v5l2nVNp0t40", "g8a3f3v5l2nVNp0t40"],
     "Maze": ["r4c7tNone", "r5c5t7", "r13c13tNone"], "MMST": ["n12e18a2k3t7", "n12e18a3k2t30"], "MultiCVRP": ["c6v2d", "c6v3s"],
     "PacMan": ["t40", "small200", "tunnel120"], "RobotWarehouse": ["s1x3h3a2r1q2t500", "s1x3h2a1r1q1t7"],
-    "Snake": ["r6c4t7", "r3c3t4000", "r12c12t20000deep", "r6c6t4000deep"], "Sokoban": ["simplet120", "randomt120", "simplet10", "opent60"], "TSP": ["n5d", "n3d", "lat6s", "n130d"],
+    "Snake": ["r6c4t7", "r3c3t4000", "r12c12t20000deep", "r6c6t4000deep", "r2c3t40", "r4c4t4000"], "Sokoban": ["simplet120", "randomt120", "simplet10", "opent60"], "TSP": ["n5d", "n3d", "lat6s", "n130d"],
 }
 
 
